@@ -33,6 +33,10 @@ pub struct Knobs {
     pub redundant_parens: bool,
     /// allow statements (STOP/INPUT/GOSUB/FOR) as the THEN statement of an IF that has an ELSE
     pub resumable_in_then_else: bool,
+    /// function bodies read only scalars (no arrays, no RND): calling them has no side effect
+    pub pure_fn_bodies: bool,
+    /// add `DEF FNK(J) = J / 0` (always fails) and `DEF FNQ(J) = FNQ(J) + 1` (overflows the frame cap)
+    pub special_defs: bool,
 }
 
 impl Knobs {
@@ -57,6 +61,8 @@ impl Knobs {
             multi_stmt: on(80),
             redundant_parens: on(30),
             resumable_in_then_else: true,
+            pure_fn_bodies: false,
+            special_defs: false,
         }
         .finish(rng)
     }
@@ -701,9 +707,13 @@ impl<'a> Gen<'a> {
             // parameters may shadow globals; bodies may read globals and callers' parameters
             let params: Vec<String> = (0..arity).map(|_| self.rng.pick(&["J", "K", "Q", "C", "Y"]).to_string()).collect();
             let d = self.k.expr_depth.min(2);
-            let saved = self.k.arrays;
+            let saved = (self.k.arrays, self.k.rnd, self.k.failures);
+            if self.k.pure_fn_bodies {
+                self.k.arrays = false;
+                self.k.rnd = false;
+            }
             let body = self.num_expr(d);
-            self.k.arrays = saved;
+            (self.k.arrays, self.k.rnd, self.k.failures) = saved;
             let stmt = Stmt::Def {
                 name: name.clone(),
                 params,
@@ -719,6 +729,22 @@ impl<'a> Gen<'a> {
             } else {
                 deferred_defs.push(stmt);
             }
+        }
+        if self.k.special_defs {
+            self.push_line(vec![Stmt::Def {
+                name: "FNK".into(),
+                params: vec!["J".into()],
+                body: Expr::Bin(BinOp::Div, Box::new(Expr::Var("J".into())), Box::new(Expr::Num(0.0))),
+            }]);
+            self.push_line(vec![Stmt::Def {
+                name: "FNQ".into(),
+                params: vec!["J".into()],
+                body: Expr::Bin(
+                    BinOp::Add,
+                    Box::new(Expr::Call("FNQ".into(), vec![Expr::Var("J".into())])),
+                    Box::new(Expr::Num(1.0)),
+                ),
+            }]);
         }
         // reserve subroutine slots (entries known before the main body is generated)
         let nsubs = if self.k.gosub { self.rng.usize(3) } else { 0 };
